@@ -131,6 +131,120 @@ def run(ctx):
 
     adjacency_name_maps_only_keyed(ctx, prog, flows, "R-C11-6", ("algorithms::cluster",), "so a node without edges gets no coefficient / triangle count and the answer for all nodes disagrees with the answer for a subset")
 
+    # ------------------------------------------------------------------ R-C11-8
+    # Fagiolo's eight directed triangle types: a common neighbour k taken from "predecessors of x" is joined to x by the
+    # edge k -> x, one taken from "successors of x" by x -> k.  In the weighted kernel each term multiplies the weights of
+    # exactly those edges; the four sibling terms must all look their weights up in the direction their own two sets say.
+    ctx.rule("R-C11-8", "directed weighted triangles: in every term the weight lookups follow the direction of the neighbour sets that were intersected (k from preds(x): w(k,x); k from succs(x): w(x,k))")
+    kern = prog.one("directed_weighted::get_all_directed_triangles")
+    n8 = 0
+
+    def _dir_of_desc(fl_, d_, depth=0):
+        """direction from the description of a set value: the get_adjacent_nodes_without(graph, x, <const>) it is"""
+        from engines import value_of_named
+
+        if depth > 6 or not isinstance(d_, tuple):
+            return None
+        if d_[0] == "call" and d_[1].endswith("get_adjacent_nodes_without") and len(d_[2]) >= 3 and d_[2][2][0] == "const":
+            return "pred" if d_[2][2][1].endswith("true") else ("succ" if d_[2][2][1].endswith("false") else None)
+        if d_[0] in ("place", "tmp") and (d_[0] == "tmp" or "." not in d_[1]):
+            v_ = value_of_named(fl_, d_[1])
+            if v_ is not None:
+                return _dir_of_desc(fl_, norm(v_), depth + 1)
+        return None
+
+    def set_direction(body_, fl_, op_):
+        """'pred' / 'succ' of a neighbour set: from its own definition, or -- for a parameter of the kernel (possibly
+        captured by the closure) -- from the argument every caller passes"""
+        d_ = norm(fl_.describe(op_, depth=8))
+        r_ = _dir_of_desc(fl_, d_)
+        if r_ is not None:
+            return r_
+        # through parameters, struct fields and captures: the nearest get_adjacent_nodes_without call(s) the set derives from
+        def _stop(bp_, nd_):
+            if nd_[0] != "CALL":
+                return False
+            tt_ = prog.bodies[bp_].blocks[nd_[1]].term
+            return bool(tt_.callee and tt_.callee.short.endswith("get_adjacent_nodes_without"))
+
+        ds2_ = set()
+        for (bp_, nd_) in flows.slice(body_.path, fl_._op_reads(op_), up=True, down=False, data_only=True, stop_at=_stop):
+            if _stop(bp_, nd_):
+                tt_ = prog.bodies[bp_].blocks[nd_[1]].term
+                if len(tt_.args) >= 3 and tt_.args[2].is_const():
+                    ds2_.add("pred" if tt_.args[2].const_int() == 1 else "succ")
+                else:
+                    ds2_.add(None)
+        if len(ds2_) == 1 and None not in ds2_:
+            return next(iter(ds2_))
+        if d_[0] == "place" and "." not in d_[1]:
+            pl_ = kern.param_local(d_[1])
+            if pl_ is not None:
+                ds_ = set()
+                for (cp_, cbb_) in flows.callers().get(kern.path, ()):
+                    cf_ = flows.of(cp_)
+                    ct_ = cf_.b.blocks[cbb_].term
+                    if pl_ - 1 < len(ct_.args):
+                        ds_.add(_dir_of_desc(cf_, norm(cf_.describe(ct_.args[pl_ - 1], depth=8))))
+                if len(ds_) == 1:
+                    return next(iter(ds_))
+        return None
+
+    for jb in prog.closures_of(kern.path):
+        jf = flows.of(jb)
+        for t in jb.calls():
+            if not (t.callee and t.callee.short.split("::")[-1] == "intersection" and len(t.args) >= 2):
+                continue
+            dx = set_direction(jb, jf, t.args[0])
+            dy = set_direction(jb, jf, t.args[1])
+            # the per-k closure mapped over this intersection
+            kc = None
+            cur = {t.dest.local}
+            clos_of = {}
+            for cl_, cp_ in jf.closure_locals.items():
+                for c_ in jf.copies_of(cl_):
+                    clos_of[c_] = cp_
+            for _ in range(5):
+                for t2 in jb.calls():
+                    if t2.args and t2.args[0].place is not None and t2.args[0].place.local in cur:
+                        for a2 in t2.args[1:]:
+                            if a2.place is not None and a2.place.local in clos_of:
+                                kc = clos_of[a2.place.local]
+                            elif a2.is_const() and a2.c and "closure" in a2.c:
+                                kc = a2.c["closure"]
+                        cur = cur | {t2.dest.local}
+                for st_ in jb.stmts():
+                    if st_.k == "assign" and st_.rv.k == "use" and st_.rv.ops[0].place is not None and st_.rv.ops[0].place.local in cur and not st_.lhs.proj:
+                        cur = cur | {st_.lhs.local}
+                if kc:
+                    break
+            if kc is None or kc not in prog.bodies or dx is None or dy is None:
+                continue
+            kb = prog.bodies[kc]
+            kf = flows.of(kb)
+            kname = kb.local_name(2)
+            jname = jb.local_name(2)
+            iname = kern.local_name(1)
+            for w in kb.calls():
+                if not (w.callee and w.callee.short.endswith("get_normalized_edge_weight") and len(w.args) >= 2):
+                    continue
+                a_, b_ = [norm(kf.describe(x_, depth=6)) for x_ in w.args[:2]]
+                na = a_[1] if a_[0] == "place" else None
+                nb = b_[1] if b_[0] == "place" else None
+                if kname not in (na, nb):
+                    continue  # the i-j edge of the triangle
+                other = nb if na == kname else na
+                if other is None or other.startswith("_"):
+                    continue
+                # the j-closure's own item is j; the other named node of the kernel is i (a parameter, a field of a
+                # parameter struct, a captured binding -- whatever it is called)
+                d_ = dy if other == jname else dx
+                iname = iname if other == jname else other
+                want_k_first = d_ == "pred"
+                n8 += 1
+                ctx.require((na == kname) == want_k_first, "R-C11-8", "term|%s|%s" % (kb.short.split("::")[-1] + kb.short.split("::")[-2], other), "k from %ss(%s): weight of %s" % (d_, other, ("(k,%s)" if want_k_first else "(%s,k)") % other),
+                            "in the term over %ss(%s) ∩ %ss(%s) the weight between k and %s is looked up as (%s, %s): k was taken from the %s of %s, so the triangle's edge runs %s -- the lookup finds no such edge (weight 1/max) or the reverse edge's weight" % (dx, iname, dy, jname, other, na, nb, {"pred": "predecessors", "succ": "successors"}[d_], other, ("k -> %s" if want_k_first else "%s -> k") % other), loc_str(w.span))
+    ctx.floor("R-C11-8", "oriented_weight_lookups", n8, 8)
     # ------------------------------------------------------------------ R-C11-7
     # "restricting to a subset returns the full computation's values": the weight normaliser (largest edge weight of
     # the GRAPH) must not depend on the subset
